@@ -11,6 +11,7 @@
   Helper lemmas live in `ALV.Lemmas.C14Core` / `ALV.Lemmas.C14`.
 -/
 import ALV.Lemmas.C14
+import ALV.Lemmas.C14Call
 import ALV.Common.Audit
 
 namespace ALV.Props.C14
@@ -349,6 +350,205 @@ theorem call_cola_quarter (k : Kind) (hk : k = .hann ∨ k = .hamming ∨ k = .b
   have := call_ok_spec false k name hn (by intro h; cases h) (4 * h) alpha xs hc
   subst this
   simpa using cola_quarter k hk _ h j hj
+/-! ## Part 6 — the regenerated tables (finite, by evaluation) -/
+
+/-- the table has exactly the documented strategies, names, aliases and `distinct` flags, in the documented order -/
+theorem table_names : rows.map (fun r => (r.names, r.distinct)) = Kind.all.map (fun k => (k.names, k.distinct)) := by
+  decide
+
+/-- both templates have the signature `(size{params_def})`: `size` first and required, then the parameters of the row -/
+theorem template_signatures :
+    windowSig = [.param ⟨"size", none⟩, .paramsDef] ∧ wsymmSig = [.param ⟨"size", none⟩, .paramsDef] := by
+  decide
+
+/-- **signature = (size[, alpha])** of every generated function -/
+theorem signatures : ∀ k ∈ Kind.all, ∀ symm : Bool,
+    (rowOf k.sname).map (funcSig (if symm then wsymmSig else windowSig)) = some k.docSig := by
+  decide
+
+/-- alpha defaults as documented -/
+theorem alpha_default_values : ∀ k ∈ Kind.all,
+    ((k.docSig.find? (·.name == "alpha")).bind (·.dflt)).map Lit.toVal = k.alphaVal := by
+  decide
+
+theorem dict_links_table : ∀ d : DictId, dictAttr d "symm" = some .wsymm ∧ dictAttr d "periodic" = some .window := by
+  intro d; cases d <;> decide
+
+theorem default_route : ∀ d : DictId, resolveRoute d none .dflt = resolveRoute d (some "hann") .item := by
+  intro d; cases d <;> decide
+
+theorem link_routes : ∀ k ∈ Kind.all, ∀ d : DictId,
+    resolveRoute d (some k.sname) (.funcLink "symm") = resolveRoute .wsymm (some k.sname) .item ∧
+    resolveRoute d (some k.sname) (.funcLink "periodic") = resolveRoute .window (some k.sname) .item ∧
+    resolveRoute d (some k.sname) (.dictLink "symm") = resolveRoute .wsymm (some k.sname) .item ∧
+    resolveRoute d (some k.sname) (.dictLink "periodic") = resolveRoute .window (some k.sname) .item := by
+  intro k hk d
+  cases d <;> revert k <;> decide
+
+
+/-! ## Part 7 — the call layer: shapes, spellings, defaults, rejected inputs (any number class) -/
+section callLayer
+variable {α : Type} [TrigField α]
+
+/-- **positional = keyword**: every way to write `(size, alpha)` binds the same -/
+theorem pycall_shapes (k : Kind) (symm : Bool) (s a : Val) :
+    pyCallFunc (α := α) ⟨k.sname, symm⟩ ⟨[s], [("alpha", a)]⟩ = pyCallFunc ⟨k.sname, symm⟩ ⟨[s, a], []⟩ ∧
+    pyCallFunc (α := α) ⟨k.sname, symm⟩ ⟨[], [("size", s), ("alpha", a)]⟩ = pyCallFunc ⟨k.sname, symm⟩ ⟨[s, a], []⟩ ∧
+    pyCallFunc (α := α) ⟨k.sname, symm⟩ ⟨[], [("alpha", a), ("size", s)]⟩ = pyCallFunc ⟨k.sname, symm⟩ ⟨[s, a], []⟩ ∧
+    pyCallFunc (α := α) ⟨k.sname, symm⟩ ⟨[], [("size", s)]⟩ = pyCallFunc ⟨k.sname, symm⟩ ⟨[s], []⟩ := by
+  cases k <;> cases symm <;> exact ⟨rfl, rfl, rfl, rfl⟩
+
+/-- **alpha omitted = the documented default written out** (blackman `.16`, cos `1`) -/
+theorem pycall_omitted_alpha (k : Kind) (symm : Bool) (s d : Val) (hd : k.alphaVal = some d) :
+    pyCallFunc (α := α) ⟨k.sname, symm⟩ ⟨[s], []⟩ = pyCallFunc ⟨k.sname, symm⟩ ⟨[s, d], []⟩ := by
+  cases k <;> simp only [Kind.alphaVal] at hd <;> cases hd <;> cases symm <;> rfl
+
+/-- a strategy without an `alpha` parameter called with one (positional or keyword): TypeError -/
+theorem pycall_no_alpha_parameter (k : Kind) (hk : k.alphaVal = none) (symm : Bool) (s a : Val) :
+    pyCallFunc (α := α) ⟨k.sname, symm⟩ ⟨[s, a], []⟩ = .err "TypeError" ∧
+    pyCallFunc (α := α) ⟨k.sname, symm⟩ ⟨[s], [("alpha", a)]⟩ = .err "TypeError" := by
+  cases k <;> first | (simp [Kind.alphaVal] at hk; done) | (cases symm <;> exact ⟨rfl, rfl⟩)
+
+/-- malformed calls: no size, a third positional argument, an unknown keyword, a parameter given twice -/
+theorem pycall_malformed (k : Kind) (symm : Bool) (s a e : Val) (kw : String) (hkw : kw ≠ "size" ∧ kw ≠ "alpha") :
+    pyCallFunc (α := α) ⟨k.sname, symm⟩ ⟨[], []⟩ = .err "TypeError" ∧
+    pyCallFunc (α := α) ⟨k.sname, symm⟩ ⟨[], [("alpha", a)]⟩ = .err "TypeError" ∧
+    pyCallFunc (α := α) ⟨k.sname, symm⟩ ⟨[s, a, e], []⟩ = .err "TypeError" ∧
+    pyCallFunc (α := α) ⟨k.sname, symm⟩ ⟨[s, a], [("alpha", e)]⟩ = .err "TypeError" ∧
+    pyCallFunc (α := α) ⟨k.sname, symm⟩ ⟨[s], [("size", e)]⟩ = .err "TypeError" ∧
+    pyCallFunc (α := α) ⟨k.sname, symm⟩ ⟨[s], [(kw, e)]⟩ = .err "TypeError" := by
+  obtain ⟨h1, h2⟩ := hkw
+  have b1 : (kw == "size") = false := by simpa using h1
+  have b2 : (kw == "alpha") = false := by simpa using h2
+  refine ⟨?_, ?_, ?_, ?_, ?_, ?_⟩
+  · cases k <;> cases symm <;> rfl
+  · cases k <;> cases symm <;> rfl
+  · cases k <;> cases symm <;> rfl
+  · cases k <;> cases symm <;> rfl
+  · cases k <;> cases symm <;> rfl
+  · rw [pyCallFunc_kind]
+    have : C14.bind k.docSig ⟨[s], [(kw, e)]⟩ = .error "TypeError" := by
+      cases k <;> simp [C14.bind, Kind.docSig, bindPos, bindKw, Ne.symm h1, Ne.symm h2, Bind.bind, Except.bind, Except.map]
+    rw [this]
+
+/-- `bool` is an `int`: `True` / `False` as size or alpha are `1` / `0` -/
+theorem pycall_bool (k : Kind) (symm : Bool) (b : Bool) (v : Val) (rest : List Val) :
+    pyCallFunc (α := α) ⟨k.sname, symm⟩ ⟨.bool b :: rest, []⟩ = pyCallFunc ⟨k.sname, symm⟩ ⟨.int (if b then 1 else 0) :: rest, []⟩ ∧
+    pyCallFunc (α := α) ⟨k.sname, symm⟩ ⟨[v, .bool b], []⟩ = pyCallFunc ⟨k.sname, symm⟩ ⟨[v, .int (if b then 1 else 0)], []⟩ := by
+  constructor
+  · match rest with
+    | [] => cases k <;> cases symm <;> cases b <;> rfl
+    | [a] => cases k <;> cases symm <;> cases b <;> rfl
+    | _ :: _ :: _ => cases k <;> cases symm <;> cases b <;> rfl
+  · cases k <;> cases symm <;> cases b <;> rfl
+
+/-- **sizes the code rejects**: a number without `__index__` (float `4.0`, `Fraction(4)`) is a TypeError in every
+    strategy — except that the symmetric template answers `[1.0]` when the number EQUALS 1 (`wsymm.hann(1.0)`) —;
+    `None` / a str always are -/
+theorem pycall_size_not_an_index (k : Kind) (symm : Bool) (q : Rat) (a : Option Val) :
+    pyCallFunc (α := α) ⟨k.sname, symm⟩ (plainArgs (.float q) a) = pyCallFunc ⟨k.sname, symm⟩ (plainArgs (.frac q) a) ∧
+    (a = none → pyCallFunc (α := α) ⟨k.sname, symm⟩ (plainArgs (.float q) a)
+      = if symm = true ∧ q = 1 then .ok [TrigField.ofInt 1] else .err "TypeError") ∧
+    pyCallFunc (α := α) ⟨k.sname, symm⟩ (plainArgs .none none) = .err "TypeError" ∧
+    pyCallFunc (α := α) ⟨k.sname, symm⟩ (plainArgs .str none) = .err "TypeError" := by
+  refine ⟨?_, ?_, ?_, ?_⟩
+  · cases a <;> cases k <;> cases symm <;> rfl
+  · rintro rfl
+    rw [pyCallFunc_kind]
+    cases k <;> cases symm <;> by_cases hq : q = 1 <;>
+      simp [hq, plainArgs, C14.bind, Kind.docSig, bindPos, bindKw, bindDefaults, Bind.bind, Except.bind, Except.map,
+        evalBound, runTemplate, periodicN, symmN, C14.ofExcept, Lit.toVal, Val.toNum, List.lookup]
+  · cases k <;> cases symm <;> rfl
+  · cases k <;> cases symm <;> rfl
+
+/-- **the old interface inside the new one**: the plain positional call with an integer size and a numeric (or
+    omitted) alpha, by a documented name, is `call` — so every theorem about `call` is a theorem about these calls -/
+theorem pycall_eq_call (symmDict : Bool) (k : Kind) (name : String) (hn : name ∈ k.names)
+    (hgap : symmDict = true → k.distinct = false → name = k.sname) (size : Int) (alpha : Option Val)
+    (hnum : ∀ v, alpha = some v → v.isNum = true) :
+    pyCall (α := α) (if symmDict then .wsymm else .window) (some name) .item (plainArgs (.int size) alpha)
+      = call (if symmDict then .wsymm else .window) (some name) size (alpha.bind Val.toNum) := by
+  rw [pyCall_doc symmDict k name hn hgap, call_some (dict_get symmDict k name hn hgap)]
+  exact pyCallFunc_eq_callFunc k _ size alpha hnum
+
+/-- `alpha=None` (or a str): TypeError exactly when a sample is computed by a formula that uses alpha — not for
+    size ≤ 0 (no sample), not for `wsymm.X(1)` (the literal `[1.0]`) -/
+theorem pycall_alpha_none (k : Kind) (hk : k = .blackman ∨ k = .cos) (symm : Bool) (size : Int) :
+    pyCallFunc (α := α) ⟨k.sname, symm⟩ ⟨[.int size, .none], []⟩
+      = if size ≤ 0 then .ok [] else if symm = true ∧ size = 1 then .ok [TrigField.ofInt 1] else .err "TypeError" := by
+  rw [pyCallFunc_kind]
+  have hb : ∀ n : Nat, ∀ N : Int, (blackman (TrigField.ofInt N) (TrigField.ofInt (Int.ofNat n)) (⟨true⟩ : Taint)).t = true := fun _ _ => rfl
+  have hc : ∀ n : Nat, ∀ N : Int, (Gen.Windows.cos (TrigField.ofInt N) (TrigField.ofInt (Int.ofNat n)) (⟨true⟩ : Taint)).t = true := fun _ _ => rfl
+  by_cases h0 : size ≤ 0
+  · have hz : size.toNat = 0 := by omega
+    have h1 : size ≠ 1 := by omega
+    rcases hk with rfl | rfl <;> cases symm <;>
+      simp [C14.bind, Kind.docSig, bindPos, bindKw, bindDefaults, Bind.bind, Except.bind, Except.map, evalBound,
+        runTemplate, Val.toNum, List.lookup, genFormula, periodicT, symmT, xrange, h0, hz, h1]
+  · have hp : 0 < size.toNat := by omega
+    by_cases h1 : size = 1
+    · subst h1
+      rcases hk with rfl | rfl <;> cases symm <;>
+        simp [C14.bind, Kind.docSig, bindPos, bindKw, bindDefaults, Bind.bind, Except.bind, Except.map, evalBound,
+          runTemplate, Val.toNum, List.lookup, genFormula, periodicT, symmT, xrange] <;> rfl
+    · rcases hk with rfl | rfl <;> cases symm <;>
+        simp only [C14.bind, Kind.docSig, bindPos, bindKw, bindDefaults, Bind.bind, Except.bind, Except.map, evalBound,
+          runTemplate, Val.toNum, List.lookup, genFormula, periodicT, symmT, xrange, h0, h1, List.map_map, if_false,
+          Function.comp_def, taint_any _ (fun n => hb n _) , taint_any _ (fun n => hc n _), hp, decide_true, if_true,
+          and_false, Bool.false_eq_true, beq_self_eq_true, String.reduceBEq]
+
+end callLayer
+
+/-! ## Part 8 — the call layer over ℝ -/
+
+/-- over ℝ an argument counts by its VALUE, whatever its spelling (`0`, `0.0`, `Fraction(0)`, `False`) -/
+theorem toNum_real (v : Val) : (v.toNum : Option ℝ) = v.rat.map (fun q => (q : ℝ)) := by
+  cases v with
+  | int i => simp [Val.toNum, Val.rat]
+  | bool b => cases b <;> simp [Val.toNum, Val.rat]
+  | float q => simp [Val.toNum, Val.rat, TrigField.ofQ, Rat.cast_def]
+  | frac q => simp [Val.toNum, Val.rat, TrigField.ofQ, Rat.cast_def]
+  | none => rfl
+  | str => rfl
+
+/-- two spellings of the same number give the same window (over ℝ): positional or keyword, int / float / Fraction / bool -/
+theorem pycall_alpha_spelling (k : Kind) (symm : Bool) (s v w : Val) (h : v.rat = w.rat) (hv : v.isNum = true) :
+    pyCallFunc (α := ℝ) ⟨k.sname, symm⟩ ⟨[s, v], []⟩ = pyCallFunc ⟨k.sname, symm⟩ ⟨[s, w], []⟩ := by
+  have hw : w.isNum = true := by
+    cases v <;> cases w <;> simp_all [Val.rat, Val.isNum]
+  have e : (v.toNum : Option ℝ) = w.toNum := by rw [toNum_real, toNum_real, h]
+  rw [pyCallFunc_kind, pyCallFunc_kind]
+  cases k <;>
+    simp [C14.bind, Kind.docSig, bindPos, bindKw, bindDefaults, Bind.bind, Except.bind, Except.map, evalBound, List.lookup, e]
+
+/-- **cos with alpha = 0 is the rectangular window**: every sample is 1 — also the zero end points `sin(0)`, `sin(π)` of
+    the symmetric one (`0 ** 0 = 1`) -/
+theorem cos_alpha_zero_is_rect (a : ℝ) (size : ℕ) :
+    periodic .cos 0 size = periodic .rect a size ∧ symmetric .cos 0 size = symmetric .rect a size := by
+  have h : ∀ N n : ℝ, sample Kind.cos 0 N n = sample Kind.rect a N n := by
+    intro N n; simp [sample]
+  constructor
+  · simp [periodic, h]
+  · simp [symmetric, h]
+
+
+/-- a size ≤ 0 gives the empty list (`xrange` of a non-positive number), in every strategy and number class -/
+theorem call_nonpositive_size {α : Type} [TrigField α] (d : DictId) (name : Option String) (size : Int) (hs : size ≤ 0)
+    (alpha : Option α) (xs : List α) (h : call d name size alpha = .ok xs) : xs = [] := by
+  have := call_length d name size alpha xs h
+  have hz : size.toNat = 0 := by omega
+  exact List.eq_nil_of_length_eq_zero (this.trans hz)
+
+/-- the range clause for calls as they are written: `X(size)`, `X(size, alpha)` with alpha in any numeric spelling -/
+theorem pycall_range (symmDict : Bool) (k : Kind) (name : String) (hn : name ∈ k.names)
+    (hgap : symmDict = true → k.distinct = false → name = k.sname) (size : ℕ) (alpha : Option Val)
+    (hnum : ∀ v, alpha = some v → v.isNum = true) (xs : List ℝ)
+    (ha : rangeOK k (effAlpha k (alpha.bind Val.toNum)))
+    (h : pyCall (if symmDict then DictId.wsymm else .window) (some name) .item (plainArgs (.int size) alpha) = .ok xs) :
+    ∀ x ∈ xs, 0 ≤ x ∧ x ≤ 1 := by
+  rw [pycall_eq_call symmDict k name hn hgap size alpha hnum] at h
+  exact call_range symmDict k name hn hgap size _ xs ha h
+
 /-! ## non-vacuity -/
 
 example : (4 : ℕ) < 7 ∧ rangeOK .blackman (4 / 25) := ⟨by decide, by constructor <;> norm_num⟩
@@ -371,6 +571,20 @@ example : ((runHistory (α := ℝ)
   have h : call (α := ℝ) .window (some "hann") 4 none = _ :=
     call_eq_spec false .hann "hann" (by decide) (by decide) 4 none
   simp [runHistory, Step.call, h, specList]
+
+-- the call layer
+example : "beta" ≠ "size" ∧ "beta" ≠ "alpha" := by decide
+example : Kind.blackman.alphaVal = some (.float (mkRat 4 25)) ∧ Kind.hann.alphaVal = none := ⟨rfl, rfl⟩
+example : (Val.int 0).rat = (Val.frac 0).rat ∧ (Val.bool false).rat = (Val.float 0).rat ∧ (Val.float 0).isNum = true := by decide
+example : pyCallFunc (α := ℝ) ⟨Kind.cos.sname, true⟩ ⟨[.int 1, .none], []⟩ = .ok [1] := by
+  simpa using pycall_alpha_none (α := ℝ) .cos (Or.inr rfl) true 1
+example : pyCallFunc (α := ℝ) ⟨Kind.cos.sname, false⟩ ⟨[.int 3, .none], []⟩ = .err "TypeError" := by
+  simpa using pycall_alpha_none (α := ℝ) .cos (Or.inr rfl) false 3
+example : pyCallFunc (α := ℝ) ⟨Kind.hann.sname, true⟩ (plainArgs (.float 1) none) = .ok [1] := by
+  simpa using (pycall_size_not_an_index (α := ℝ) .hann true 1 none).2.1 rfl
+example : ∀ v, some (Val.frac (1/4)) = some v → v.isNum = true := by intro v h; cases h; rfl
+example : rangeOK .cos (effAlpha .cos ((some (Val.int 0)).bind Val.toNum)) := by
+  show (0 : ℝ) ≤ _; simp [effAlpha, Val.toNum]
 
 end ALV.Props.C14
 
